@@ -42,8 +42,8 @@ claimed = {
    technique="contract-based deductive verification: type-generated ownership contract (freshness ghost = allocation counter), store-time and exit obligations per function",
    design="DESIGN.md §4 C17"),
  "C03": dict(
-   text="Proof that announced lengths equal emitted bytes: every primitive Write*/LengthOf* pair (byte, short, int, long, string, long string, bytes, short bytes, uuid, inet, inetaddr, value, stream id, vint and unsigned vint for all 2^64 values, string list and positional values through fold invariants, with no bound on the number of elements); the header writes 8 or 9 bytes; uncompressedBodyLength equals the bytes encodeBodyUncompressed writes for every flag combination and direction (this obligation failed on the original tree for requests carrying the tracing flag and is fixed); encodeFrameUncompressed/EncodeRawFrame write header + exactly Header.BodyLength bytes; and for 12 of the 17 message codecs a lemma executes Encode and EncodedLength on the same symbolic message and proves the counts equal for all contents and versions.",
-   note="ASSUMED: writer/length agreement of the four map-typed notations (both range over a Go map). NOT covered: BATCH, RESULT, REGISTER, EVENT, ERROR codecs (loops needing further fold invariants), compressed bodies, the decoder half (consumes header + BodyLength) and hence the 'back-to-back frames' consequence. encLen(codec,message,version) is an abstract length valid while the message is not modified. Assumed stream contracts of io.Writer/bytes.Buffer/encoding/binary.",
+   text="Proof that announced lengths equal emitted bytes: every primitive Write*/LengthOf* pair (byte, short, int, long, string, long string, bytes, short bytes, uuid, inet, inetaddr, value, stream id, vint and unsigned vint for all 2^64 values, string list and positional values through fold invariants, with no bound on the number of elements); the header writes 8 or 9 bytes; uncompressedBodyLength equals the bytes encodeBodyUncompressed writes for every flag combination and direction (this obligation failed on the original tree for requests carrying the tracing flag and is fixed); encodeFrameUncompressed/EncodeRawFrame write header + exactly Header.BodyLength bytes; and for 13 of the 17 message codecs a lemma executes Encode and EncodedLength on the same symbolic message and proves the counts equal for all contents and versions.",
+   note="ASSUMED: writer/length agreement of the four map-typed notations (both range over a Go map). NOT covered: BATCH, RESULT, REGISTER, EVENT codecs (loops needing further fold invariants), compressed bodies, the decoder half (consumes header + BodyLength) and hence the 'back-to-back frames' consequence. encLen(codec,message,version) is an abstract length valid while the message is not modified. Assumed stream contracts of io.Writer/bytes.Buffer/encoding/binary.",
    technique="contract-based deductive verification: ghost byte counters, fold invariants with instantiated defining equations, relational lemma functions over the real Encode/EncodedLength bodies",
    design="DESIGN.md §4 C03"),
  "C08": dict(
